@@ -44,6 +44,7 @@ func checkC05(c *Ctx, r *Report) {
 	c05R5(c, r)
 	c05R6(c, r)
 	c05R2b(c, r)
+	c05LookupOk(c, r)
 }
 
 // c05R5: numeric limit agreement: the TTL parser accepts exactly the range the 32-bit header field (and its printer) has.
